@@ -14,7 +14,7 @@ FAILED=$(grep -E "^FAIL\s+src.elv.sh" /tmp/applypatch-test.log | awk '{print $2}
 for pkg in $FAILED; do
   ok=0
   for i in 1 2 3; do
-    if go test -vet=off -count=1 "$pkg" > /tmp/applypatch-retest.log 2>&1; then ok=1; break; fi
+    if ELVISH_TEST_TIME_SCALE=$((10*i)) go test -vet=off -count=1 "$pkg" > /tmp/applypatch-retest.log 2>&1; then ok=1; break; fi
   done
   if [ $ok = 0 ]; then
     echo "BASELINE TESTS FAIL (3 retries) in $pkg with $P"; grep -E "^(FAIL|---)" /tmp/applypatch-retest.log | head -20
